@@ -3,7 +3,9 @@ Hand-written executable model of the size-class grid operations of
 kawin/precipitation/PopulationBalance.py:
   __init__ 53-69, reset 71-92, LoadDistribution 303-313, createBackup/revert 326-345,
   changeSizeClasses 347-384, addSizeClasses 386-400, adjustSizeClassesEuler 402-444,
-  UpdatePBMEuler 628-641, the `...FromN` moment functions 643-721.
+  UpdatePBMEuler 628-641, the `...FromN` moment functions 643-721,
+  PSD recording: enableRecording 94-107, record 148-161, saveRecordedPSD/loadRecordedPSD 163-191,
+  _grabPSDfromIndex 193-213, setPSDtoRecordedTime 215-279.
 Core Lean only; generic scalar (Float in the driver, an ordered field in the theorems).
 
 Arrays are `List α` so that lengths are part of the state.  An operation that raises in
@@ -82,6 +84,16 @@ structure State (α : Type) where
   size : List α
   prevPsd : List α
   prevBounds : List α
+  /-- `_record` and the recorded arrays (rows of `_recordedBins`, `_recordedPSD`; `_recordedTime`) -/
+  recording : Bool
+  recBins : List (List α)
+  recPsd : List (List α)
+  recTime : List α
+  /-- the npz file written by `saveRecordedPSD` (absent until written) -/
+  savedOk : Bool
+  savedBins : List (List α)
+  savedPsd : List (List α)
+  savedTime : List α
 
 /-- `reset(resetBounds)` (71-92, repaired: the backup is the fresh grid, not zeros) -/
 def reset (s : State α) (resetBounds : Bool) : State α :=
@@ -95,7 +107,9 @@ def init (cMin cMax : α) (bins minBins maxBins : Nat) : State α :=
   let oMax := amax2 (((10 : Nat) : α) * cMin) cMax
   reset { origMin := cMin, origMax := oMax, origBins := bins, min := cMin, max := oMax,
           bins := bins, minBins := minBins, maxBins := maxBins, adaptive := true,
-          psd := [], bounds := [], size := [], prevPsd := [], prevBounds := [] } true
+          psd := [], bounds := [], size := [], prevPsd := [], prevBounds := [],
+          recording := false, recBins := [], recPsd := [], recTime := [],
+          savedOk := false, savedBins := [], savedPsd := [], savedTime := [] } true
 
 /-- `addSizeClasses(k)` (386-400) -/
 def add (s : State α) (k : Nat) : Option (State α) :=
@@ -184,9 +198,135 @@ def adjust (s : State α) (checkDiss : Bool) : Option (State α × Bool × Optio
     | some (some (cMin, cMax, bins)) =>
       (change s1 cMin cMax (some bins) false).map (fun s2 => (s2, true, none))
 
-/-- `UpdatePBMEuler(time, N)` without recording: populations below one particle are dropped -/
-def update (s : State α) (N : List α) : State α :=
-  { s with psd := N.map (fun x => if x < 1 then 0 else x) }
+/-- a recorded row padded with zeros to width `w` (`np.pad`) -/
+def padRow (w : Nat) (r : List α) : List α := r ++ zeros (w - r.length)
+
+def rowWidth (m : List (List α)) : Nat := match m with | [] => 0 | r :: _ => r.length
+
+/-- `enableRecording()` (94-107): one all-zero record at t = 0, width `maxBins` -/
+def enableRec (s : State α) : State α :=
+  { s with recording := true, recBins := [zeros (s.maxBins + 1)], recPsd := [zeros s.maxBins], recTime := [0] }
+
+/-- `record(time)` (148-161) for a given record width `mb`: pad the stored rows to the current record width (`maxBins`, or `bins`
+without adaptive binning) and append the current grid and distribution.  `np.pad` raises on a
+negative width, the row assignment raises when the grid is wider than the record. -/
+def recordWith (s : State α) (t : α) (mb : Nat) : Option (State α) :=
+  if mb + 1 < rowWidth s.recBins ∨ mb < rowWidth s.recPsd ∨ mb + 1 < s.bounds.length ∨ mb < s.psd.length then none
+  else some { s with recBins := s.recBins.map (padRow (mb + 1)) ++ [padRow (mb + 1) s.bounds],
+                     recPsd := s.recPsd.map (padRow mb) ++ [padRow mb s.psd],
+                     recTime := s.recTime ++ [t] }
+
+def record (s : State α) (t : α) : Option (State α) :=
+  if s.recording then recordWith s t (if s.adaptive then s.maxBins else s.bins) else some s
+
+/-- `UpdatePBMEuler(time, N)`: populations below one particle are dropped, then `record(time)` -/
+def update (s : State α) (t : α) (N : List α) : Option (State α) :=
+  record { s with psd := N.map (fun x => if x < 1 then 0 else x) } t
+
+/-- `saveRecordedPSD(file)`: writes the three arrays when recording, nothing otherwise -/
+def saveRec (s : State α) : State α :=
+  if s.recording then { s with savedOk := true, savedBins := s.recBins, savedPsd := s.recPsd, savedTime := s.recTime }
+  else s
+
+/-- `loadRecordedPSD(file)`: raises when the file does not exist -/
+def loadRec (s : State α) : Option (State α) :=
+  if s.savedOk then some { s with recording := true, recBins := s.savedBins, recPsd := s.savedPsd, recTime := s.savedTime }
+  else none
+
+/-- what `_grabPSDfromIndex` returns -/
+structure Grab (α : Type) where
+  bounds : List α
+  psd : List α
+  size : List α
+  bins : Nat
+  mn : α
+  mx : α
+
+/-- `len(np.nonzero(row)[0])` -/
+def nonzeroCount (r : List α) : Nat := (r.filter (fun x => decide (x < 0 ∨ 0 < x))).length
+
+/-- `np.amin` -/
+def minList : List α → α
+  | [] => 0
+  | x :: xs => xs.foldl (fun a b => if b < a then b else a) x
+
+/-- `_grabPSDfromIndex` (193-213) on one recorded row pair: the non-zero COUNT of the boundary row
+decides how many entries are taken; an all-zero row stands for the original empty grid -/
+def grab (s : State α) (rb rp : List α) : Grab α :=
+  let nz := nonzeroCount rb
+  if nz = 0 then
+    let b := linspace s.origMin s.origMax s.origBins
+    { bounds := b, psd := zeros s.origBins, size := midpoints b, bins := s.origBins, mn := minList b, mx := maxList b }
+  else
+    let b := rb.take nz
+    let p := rp.take (nz - 1)
+    { bounds := b, psd := p, size := midpoints b, bins := p.length, mn := minList b, mx := maxList b }
+
+/-- `np.interp(x, xp, fp, left=0, right=0)` -/
+def interp0 (xp fp : List α) (x : α) : α :=
+  match xp, fp with
+  | x0 :: _, _ :: _ =>
+    if x < x0 then 0 else
+    match xp.getLast? with
+    | some xl => if xl < x then 0 else interpAux xp fp x
+    | none => 0
+  | _, _ => 0
+
+/-- the distribution of `src` re-expressed on the grid of `dst` and rescaled to the third moment of
+`src` (251-259 / 263-272) -/
+def resize (src dst : Grab α) : Option (List α) :=
+  if src.psd.length ≠ src.size.length ∨ src.psd.length + 1 ≠ src.bounds.length ∨
+     (src.psd.length = 0 ∧ dst.size.length ≠ 0) then none
+  else
+    let oldV := moment src.psd src.size 3
+    let distDen := List.zipWith (fun p w => p / w) src.psd (widths src.bounds)
+    let rOld := midpoints src.bounds
+    let p := List.zipWith (fun x w => interp0 rOld distDen x * w) dst.size (widths dst.bounds)
+    let newV := moment p dst.size 3
+    if newV < 0 ∨ 0 < newV then some (p.map (fun x => x * (oldV / newV))) else some (zeros dst.bins)
+
+def applyGrab (s : State α) (g : Grab α) : State α :=
+  { s with bounds := g.bounds, psd := g.psd, size := g.size, bins := g.bins, min := g.mn, max := g.mx }
+
+/-- linear blend in time of two distributions on the same grid (277) -/
+def blend (U L : List α) (t lt ut : α) : List α :=
+  List.zipWith (fun u l => (u - l) * (t - lt) / (ut - lt) + l) U L
+
+/-- the in-between branch of `setPSDtoRecordedTime` (232-279) given the two grabbed records -/
+def between (s : State α) (u l : Grab α) (t lt ut : α) : Option (State α) :=
+  if l.bins ≤ u.bins then
+    (resize l u).map (fun lp =>
+      { s with bounds := u.bounds, size := midpoints u.bounds, psd := blend u.psd lp t lt ut,
+               bins := (midpoints u.bounds).length, min := minList u.bounds, max := maxList u.bounds })
+  else
+    (resize u l).map (fun up =>
+      { s with bounds := l.bounds, size := midpoints l.bounds, psd := blend up l.psd t lt ut,
+               bins := (midpoints l.bounds).length, min := minList l.bounds, max := maxList l.bounds })
+
+/-- `setPSDtoRecordedTime(time)` (215-279): nothing unless recording; at or before the first record
+the first record, at or after the last record the last one, in between a blend of the two
+neighbouring records on the grid of the one with more classes -/
+def setRecorded (s : State α) (t : α) : Option (State α) :=
+  if s.recording then
+    match s.recTime.head?, s.recTime.getLast? with
+    | some t0, some tl =>
+      if t ≤ t0 then
+        match s.recBins[0]?, s.recPsd[0]? with
+        | some rb, some rp => some (applyGrab s (grab s rb rp))
+        | _, _ => none
+      else if tl ≤ t then
+        match s.recBins.getLast?, s.recPsd.getLast? with
+        | some rb, some rp => some (applyGrab s (grab s rb rp))
+        | _, _ => none
+      else
+        let uind := argmaxFirst (fun i => decide (t < s.recTime.getD i 0)) s.recTime.length
+        let lind := uind - 1
+        match s.recBins[uind]?, s.recPsd[uind]?, s.recBins[lind]?, s.recPsd[lind]?, s.recTime[uind]?, s.recTime[lind]? with
+        | some ub, some up, some lb, some lp, some ut, some lt =>
+          between s (grab s ub up) (grab s lb lp) t lt ut
+        | _, _, _, _, _, _ => none
+    | _, _ => none
+  else some s
 
 /-- `createBackup()` -/
 def backup (s : State α) : State α := { s with prevPsd := s.psd, prevBounds := s.bounds }
@@ -224,24 +364,34 @@ inductive Op (α : Type) where
   | add (k : Nat)
   | change (cMin cMax : α) (bins? : Option Nat) (resetPSD : Bool)
   | adjust (checkDiss : Bool)
-  | update (N : List α)
+  | update (t : α) (N : List α)
   | backup
   | revert
   | setPsd (N : List α)
   | load (data : List α)
   | setAdaptive (b : Bool)
+  | enableRec
+  | record (t : α)
+  | setRecorded (t : α)
+  | saveRec
+  | loadRec
 
 def step (s : State α) : Op α → Option (State α)
   | .reset b => some (reset s b)
   | .add k => add s k
   | .change cMin cMax b r => change s cMin cMax b r
   | .adjust c => (adjust s c).map (fun r => r.1)
-  | .update N => some (update s N)
+  | .update t N => update s t N
   | .backup => some (backup s)
   | .revert => revert s
   | .setPsd N => some { s with psd := N }
   | .load d => load s d
   | .setAdaptive b => some { s with adaptive := b }
+  | .enableRec => some (enableRec s)
+  | .record t => record s t
+  | .setRecorded t => setRecorded s t
+  | .saveRec => some (saveRec s)
+  | .loadRec => loadRec s
 
 /-- a whole operation sequence; stops at the first operation that raises -/
 def run (s : State α) : List (Op α) → Option (State α)
